@@ -7,7 +7,7 @@ from . import engine, seams, shape, workload
 from .kernel import POLICIES
 from .props import Prop, PROPS, h48
 from .runner import splitmix64
-from .stream_ops import model_source, readable
+from .stream_ops import model_source, readable, rename_first
 
 ALL_OPTS = [[bool(i & 4), bool(i & 2), bool(i & 1)] for i in range(8)]
 
@@ -71,6 +71,8 @@ class C17Hook:
                 exp = exp[:len(act)]
             if any("__foreign__" in e for e in exp):
                 exp = [e for e in exp if "__foreign__" not in e][:len(act)]
+            if rec.get("zip"):
+                exp = rename_first(exp)  # interleaved generators of one stream: ids compared up to per-source renaming
             d = engine.first_diff(exp, act, "$source[%d].envelopes" % si)
             if d:
                 run.violation("C17-model", ts.ti, oi, d, exp, act)
@@ -235,7 +237,8 @@ def _stream_ops(rng, paths, nstreams, nops):
             head, _, tail = chosen[i].rpartition("/")
             chosen[i] = head + rng.choice(["//", "/./"]) + tail
         r = rng.random()
-        cons = {"k": "drain"} if r < 0.7 else {"k": "take", "n": rng.randint(0, 6), "close": rng.random() < 0.5}
+        cons = {"k": "drain"} if r < 0.62 else {"k": "take", "n": rng.randint(0, 6), "close": rng.random() < 0.5} if r < 0.9 else \
+            {"k": "zip", "order": [rng.randrange(6) for _ in range(rng.randint(0, 40))]}
         ops.append({"op": "stream", "s": rng.randrange(nstreams), "paths": chosen, "consumer": cons})
     return ops
 
@@ -334,7 +337,7 @@ class C17(Prop):
                     k = "cli"
                 else:
                     c = op.get("consumer") or {"k": "drain"}
-                    k = c["k"] + ("_close" if c.get("close") else "_drop" if c["k"] == "take" else "")
+                    k = c["k"] + ("_close" if c.get("close") else "_drop" if c["k"] == "take" else "_interleaved_generators_of_one_stream" if c["k"] == "zip" else "")
                 cons[k] = cons.get(k, 0) + 1
         if spec.get("faults"):
             for f in spec["faults"]:
